@@ -450,3 +450,13 @@ def run(F, R, tier):
     L.depends_on(r7, F, tier, ["C01-R2", "C01-R4"], "the decoder undoes exactly the payload encoding the encoder chose from the protected b64")
     L.depends_on(r7, F, tier, ["C04-R5", "C04-R7"], "verify_jws finds the method create_jws signed with, and only within the configured scope")
     r7.floor(2)
+
+    # ------------------------------------------------------------------ R8 what the header / container writers omit, the reader restores
+    r8 = R.rule("C08-R8", "T12", "every member the JOSE header and JSON-serialization writers may omit is restored by the reader to the very value that was "
+                "omitted: Option members are skipped exactly when None (a predicate that also skips Some(true) drops a member the encoder validated, e.g. b64 next to crit = [\"b64\"])")
+    n8 = 0
+    for ty in ("identity_jose::jws::header::JwsHeader", "identity_jose::jwt::header::JwtHeader"):
+        n8 += L.serde_skip_inverse(r8, F, ty)
+    for ty in ("identity_jose::jws::encoding::utils::JwsSignature", "identity_jose::jws::encoding::utils::Flatten", "identity_jose::jws::encoding::utils::General"):
+        n8 += L.serde_skip_inverse(r8, F, ty)
+    r8.floor(15)
